@@ -31,6 +31,88 @@ Proof. rewrite <- (len_le_bytes k n). apply take_app_exact. Qed.
 Lemma drop_le_bytes k n X : drop (N.of_nat k) (le_bytes k n ++ X) = X.
 Proof. rewrite <- (len_le_bytes k n). apply drop_app_exact. Qed.
 
+(* ---- dates: binary and text, every field ------------------------------------------------------------------------ *)
+Lemma le_bytes_2 y : le_bytes 2 y = [y mod 256; y / 256 mod 256].
+Proof. reflexivity. Qed.
+
+Theorem bin_datetime_roundtrip y m d h mi s us rest : y < 65536 -> us < 2 ^ 32 ->
+  dec_bin_datetime (bin_datetime y m d h mi s us ++ rest) = Some ((y, m, d, h, mi, s, us), rest).
+Proof.
+  intros Hy Hus. unfold bin_datetime.
+  assert (Y : le_val [y mod 256; y / 256 mod 256] = y).
+  { cbn [le_val]. pose proof (N.div_mod y 256 ltac:(lia)) as D. rewrite (N.mod_small (y / 256)) by (apply N.div_lt_upper_bound; lia). lia. }
+  destruct (N.eqb_spec us 0) as [->|Hu].
+  - destruct (N.eqb_spec h 0) as [->|Hh]; [destruct (N.eqb_spec mi 0) as [->|Hm]; [destruct (N.eqb_spec s 0) as [->|Hs]|]|]; cbn [andb].
+    + destruct (N.eqb_spec y 0) as [->|Hy0]; [destruct (N.eqb_spec m 0) as [->|Hm0]; [destruct (N.eqb_spec d 0) as [->|Hd0]|]|]; cbn [andb];
+        try reflexivity; rewrite le_bytes_2; cbn [app dec_bin_datetime]; rewrite Y; reflexivity.
+    + rewrite le_bytes_2. cbn [app dec_bin_datetime]. rewrite Y. reflexivity.
+    + rewrite le_bytes_2. cbn [app dec_bin_datetime]. rewrite Y. reflexivity.
+    + rewrite le_bytes_2. cbn [app dec_bin_datetime]. rewrite Y. reflexivity.
+  - rewrite le_bytes_2. cbn [app dec_bin_datetime].
+    change 4 with (N.of_nat 4). rewrite take_le_bytes, drop_le_bytes.
+    rewrite len_app, len_le_bytes. destruct (N.ltb_spec (N.of_nat 4 + len rest) (N.of_nat 4)) as [L|L]; [lia|].
+    rewrite Y, le_roundtrip by (change (256 ^ N.of_nat 4) with (2 ^ 32); lia). reflexivity.
+Qed.
+
+Lemma digit_val n : is_digit (digit n) = true /\ digit n - 48 = n mod 10.
+Proof. unfold digit. split; [apply digit_ok|]. set (x := n mod 10). lia. Qed.
+
+Lemma undec_pad2 n : n < 100 -> undec_N (pad2 n) = Some n.
+Proof.
+  intros H. unfold pad2, undec_N. cbn [undec_go].
+  destruct (digit_val (n / 10)) as [A1 A2], (digit_val n) as [B1 B2]. rewrite A1, B1, A2, B2. f_equal.
+  pose proof (N.div_mod n 10 ltac:(lia)) as D. rewrite (N.mod_small (n / 10)) by (apply N.div_lt_upper_bound; lia). lia.
+Qed.
+
+Lemma undec_pad4 n : n < 10000 -> undec_N (pad4 n) = Some n.
+Proof.
+  intros H. unfold pad4, undec_N. cbn [undec_go].
+  destruct (digit_val (n / 1000)) as [A1 A2], (digit_val (n / 100)) as [B1 B2], (digit_val (n / 10)) as [C1 C2], (digit_val n) as [D1 D2].
+  rewrite A1, B1, C1, D1, A2, B2, C2, D2. f_equal.
+  pose proof (N.div_mod n 10 ltac:(lia)). pose proof (N.div_mod (n / 10) 10 ltac:(lia)). pose proof (N.div_mod (n / 100) 10 ltac:(lia)).
+  assert (n / 10 / 10 = n / 100) by (rewrite N.div_div by lia; reflexivity).
+  assert (n / 100 / 10 = n / 1000) by (rewrite N.div_div by lia; reflexivity).
+  rewrite (N.mod_small (n / 1000)) by (apply N.div_lt_upper_bound; lia).
+  set (a := n / 1000) in *. set (b := n / 100) in *. set (c := n / 10) in *.
+  set (b' := b mod 10) in *. set (c' := c mod 10) in *. set (d' := n mod 10) in *. lia.
+Qed.
+
+Lemma undec_pad6 n : n < 1000000 -> undec_N (pad6 n) = Some n.
+Proof.
+  intros H. unfold pad6, undec_N. cbn [undec_go].
+  destruct (digit_val (n / 100000)) as [A1 A2], (digit_val (n / 10000)) as [B1 B2], (digit_val (n / 1000)) as [C1 C2],
+           (digit_val (n / 100)) as [D1 D2], (digit_val (n / 10)) as [E1 E2], (digit_val n) as [F1 F2].
+  rewrite A1, B1, C1, D1, E1, F1, A2, B2, C2, D2, E2, F2. f_equal.
+  pose proof (N.div_mod n 10 ltac:(lia)). pose proof (N.div_mod (n / 10) 10 ltac:(lia)). pose proof (N.div_mod (n / 100) 10 ltac:(lia)).
+  pose proof (N.div_mod (n / 1000) 10 ltac:(lia)). pose proof (N.div_mod (n / 10000) 10 ltac:(lia)).
+  assert (n / 10 / 10 = n / 100) by (rewrite N.div_div by lia; reflexivity).
+  assert (n / 100 / 10 = n / 1000) by (rewrite N.div_div by lia; reflexivity).
+  assert (n / 1000 / 10 = n / 10000) by (rewrite N.div_div by lia; reflexivity).
+  assert (n / 10000 / 10 = n / 100000) by (rewrite N.div_div by lia; reflexivity).
+  rewrite (N.mod_small (n / 100000)) by (apply N.div_lt_upper_bound; lia).
+  set (a := n / 100000) in *. set (b := n / 10000) in *. set (c := n / 1000) in *. set (d := n / 100) in *. set (e := n / 10) in *.
+  set (b' := b mod 10) in *. set (c' := c mod 10) in *. set (d' := d mod 10) in *. set (e' := e mod 10) in *. set (f' := n mod 10) in *. lia.
+Qed.
+
+Theorem text_date_roundtrip y m d : y < 10000 -> m < 100 -> d < 100 -> dec_text_date (text_date y m d) = Some (y, m, d).
+Proof.
+  intros Hy Hm Hd. pose proof (undec_pad4 y Hy) as Y. pose proof (undec_pad2 m Hm) as M. pose proof (undec_pad2 d Hd) as D.
+  unfold text_date, pad4, pad2 in *. cbn [app dec_text_date]. rewrite Y, M, D. reflexivity.
+Qed.
+
+Theorem text_datetime_roundtrip y m d h mi s us : y < 10000 -> m < 100 -> d < 100 -> h < 100 -> mi < 100 -> s < 100 -> us < 1000000 ->
+  dec_text_datetime (text_datetime y m d h mi s us) = Some (y, m, d, h, mi, s, us).
+Proof.
+  intros Hy Hm Hd Hh Hmi Hs Hus. pose proof (text_date_roundtrip y m d Hy Hm Hd) as TD.
+  pose proof (undec_pad2 h Hh) as H1. pose proof (undec_pad2 mi Hmi) as H2. pose proof (undec_pad2 s Hs) as H3. pose proof (undec_pad6 us Hus) as H6.
+  unfold dec_text_datetime, text_datetime.
+  assert (L : len (text_date y m d) = 10) by reflexivity.
+  rewrite <- L at 1. rewrite take_app_exact. rewrite <- L. rewrite drop_app_exact. rewrite TD.
+  unfold pad2 in *. cbn [app]. rewrite H1, H2, H3.
+  destruct (N.eqb_spec us 0) as [->|Hu]; [reflexivity|].
+  unfold pad6 in *. cbn [length Nat.eqb]. rewrite H6. reflexivity.
+Qed.
+
 (* ---- binary TIME: what a client decodes is the application's duration, sign and days included --------------- *)
 Theorem bin_time_roundtrip us r : (Z.abs us < 2 ^ 32 * 86400000000)%Z ->
   dec_bin_time (bin_time us ++ r) = Some (us, r).
